@@ -34,7 +34,7 @@ def lp_trace(run, lp):
         sup = dict(crops=q(s["crops"][m] if add["crops"] else 0.0), meat=q(s["meat"][m] if add["meat"] else 0.0),
                    scp=q(s["scp"][m] if add["scp"] else 0.0), cs=q(s["cs"][m] if add["cs"] else 0.0),
                    built=num(s["built_area"][m] if add["seaweed"] else 0.0), growth=num(s["growth"][m]),
-                   feed=q(s[feed_key][m]), bio=q(s[bio_key][m]))
+                   feed=q(s[feed_key][m]), bio=q(s[bio_key][m]), milk=q(s["milk"][m]), fish=q(s["fish"][m]), gh=q(s["greenhouse"][m]))
         a = dict(sf=dict(h=q(v["stored_food_to_humans"][m]), f=q(v["stored_food_feed"][m]), b=q(v["stored_food_biofuel"][m])),
                  crops=dict(h=q(v["crops_food_to_humans"][m]), f=q(v["crops_food_feed"][m]), b=q(v["crops_food_biofuel"][m])),
                  scp=dict(h=q(v["methane_scp_to_humans"][m]), f=q(v["methane_scp_feed"][m]), b=q(v["methane_scp_biofuel"][m])),
@@ -43,7 +43,7 @@ def lp_trace(run, lp):
                          wet=num(v["seaweed_wet_on_farm"][m]), area=num(v["used_area"][m])),
                  meat=q(v["meat_eaten"][m]))
         ev.append(dict(ev="Month", m=m, sup=sup, a=a))
-    ev.append(dict(ev="Finish", n=n))
+    ev.append(dict(ev="Finish", n=n, z=num(lp["z"] / 100.0 if lp["kind"] == "H" else 0.0)))
     return dict(hdr=dict(cc=run["job"]["cc"], preset=run["job"]["preset"], round=lp["round"], kind=lp["kind"],
                          store=c["store"], need=need), ev=ev)
 
@@ -74,6 +74,8 @@ def run(pid, tier):
             traces.append(lp_trace(run_, lp))
     fails = tracecheck.validate("Trace_Ledger", "Trace_Ledger.cfg", traces, out)
     for (t, l, clause) in fails:
+        if clause == "OptimumAchieved":
+            continue  # a C02 clause, reported by ./check C02
         h = t["hdr"]
         e = t["ev"][l - 1] if l <= len(t["ev"]) else {}
         out.violation(key_of(t, l, clause), "%s %s round %d month %s" % (h["cc"], h["preset"], h["round"], e.get("m", "-")),
